@@ -1,15 +1,15 @@
 import LolHtml.Model.NameHash
 /-!
-`impl fmt::Debug for LocalNameHash` (src/html/local_name.rs:89-112): decodes the base-32 digits of a
+`impl fmt::Debug for LocalNameHash` (src/html/local_name.rs:94-119): decodes the base-32 digits of a
 valid hash back into the (lower-case) name. The buffer has 12 slots, so a 13-character name such as
 `foreignobject` is printed without its first character.
 -/
 namespace LolHtml.Model
 
-/-- local_name.rs:99-102 -/
+/-- local_name.rs:105-108 -/
 def NameHash.digitChar (d : Nat) : UInt8 := if 6 ≤ d then UInt8.ofNat (d + 91) else UInt8.ofNat (d + 49)
 
-/-- The `loop` of local_name.rs:98-108; `pos` counts down from 11. -/
+/-- The `loop` of local_name.rs:104-114; `pos` counts down from 11. -/
 def NameHash.debugLoop : Nat → Nat → Bytes → Bytes
   | 0, h, acc => NameHash.digitChar (h % 32) :: acc
   | pos + 1, h, acc =>
